@@ -28,6 +28,8 @@ CONSTANTS Writers,      \* e.g. {"w1", "w2"}
           Two, Three,   \* writers doing two / three writes (the others do one)
           SOps,         \* e.g. <<"enter", "leave">>
           Cap,          \* queue bound (1024 in the code; small here)
+          Split,        \* BOOLEAN: Queue() is two segments (bound check -- gate pq.queue.checked -- push)
+          Prefill,      \* BOOLEAN: start in config with a queue holding Cap-1 packets
           Locked,       \* BOOLEAN
           Export        \* BOOLEAN: print every complete behaviour as a schedule
 
@@ -35,6 +37,7 @@ CONSTANTS Writers,      \* e.g. {"w1", "w2"}
 SOpsEL == <<"enter", "leave">>
 SOpsELE == <<"enter", "leave", "enter">>
 SOpsELEL == <<"enter", "leave", "enter", "leave">>
+SOpsNone == <<>>
 
 S == "s"
 NOps == [w \in Writers |-> IF w \in Three THEN 3 ELSE IF w \in Two THEN 2 ELSE 1]
@@ -69,8 +72,11 @@ Init == /\ prog \in {f \in [Writers -> SeqsOf(3, {"P", "K"}) \cup SeqsOf(2, {"P"
         /\ idx = [t \in Threads |-> 1]
         /\ ptr = [w \in Writers |-> 0]
         /\ lock = "none"
-        /\ ph = "play" /\ q = 0 /\ nq = 0
-        /\ qc = [i \in 1..MaxQ |-> <<>>]
+        /\ IF Prefill
+             THEN /\ ph = "config" /\ q = 1 /\ nq = 1
+                  /\ qc = [i \in 1..MaxQ |-> IF i = 1 THEN [j \in 1..(Cap - 1) |-> <<"m", j>>] ELSE <<>>]
+             ELSE /\ ph = "play" /\ q = 0 /\ nq = 0
+                  /\ qc = [i \in 1..MaxQ |-> <<>>]
         /\ wire = <<>> /\ closed = FALSE /\ why = ""
         /\ h = <<>>
 
@@ -92,6 +98,7 @@ ReadPtr(w) ==
 \* ptr.Queue(p) | c.wr.WritePacket(p); unlock; (Flush)
 DoWrite(w) ==
     /\ pc[w] = "ptr"
+    /\ ~(Split /\ ptr[w] # 0 /\ prog[w][idx[w]] = "P")
     /\ Step(w)
     /\ LET k == prog[w][idx[w]]
            p == <<w, idx[w]>>
@@ -111,6 +118,29 @@ DoWrite(w) ==
     /\ idx' = [idx EXCEPT ![w] = @ + 1]
     /\ IF Locked THEN lock' = "none" ELSE UNCHANGED lock
     /\ UNCHANGED <<prog, ptr, ph, q, nq>>
+
+\* Queue() in two segments (Split): the bound check ...
+DoCheck(w) ==
+    /\ pc[w] = "ptr" /\ Split /\ ptr[w] # 0 /\ prog[w][idx[w]] = "P"
+    /\ Step(w)
+    /\ IF Len(qc[ptr[w]]) >= Cap
+         THEN /\ closed' = TRUE /\ why' = (IF why = "" THEN "overflow" ELSE why)
+              /\ pc' = [pc EXCEPT ![w] = "idle"]
+              /\ idx' = [idx EXCEPT ![w] = @ + 1]
+              /\ IF Locked THEN lock' = "none" ELSE UNCHANGED lock
+         ELSE /\ pc' = [pc EXCEPT ![w] = "chk"]              \* -- gate pq.queue.checked --
+              /\ UNCHANGED <<closed, why, idx, lock>>
+    /\ UNCHANGED <<prog, ptr, ph, q, nq, qc, wire>>
+
+\* ... and the push
+DoPush(w) ==
+    /\ pc[w] = "chk"
+    /\ Step(w)
+    /\ qc' = [qc EXCEPT ![ptr[w]] = Append(@, <<w, idx[w]>>)]
+    /\ pc' = [pc EXCEPT ![w] = "idle"]
+    /\ idx' = [idx EXCEPT ![w] = @ + 1]
+    /\ IF Locked THEN lock' = "none" ELSE UNCHANGED lock
+    /\ UNCHANGED <<prog, ptr, ph, q, nq, wire, closed, why>>
 
 \* SetState(s): entirely under c.mu.  Entering config, or leaving it with no queue, is one
 \* segment.  Leaving with a queue is two: up to the gate pq.release.begin (encoder already
@@ -148,7 +178,7 @@ SRelease ==
     /\ IF Locked THEN lock' = "none" ELSE UNCHANGED lock
     /\ UNCHANGED <<prog, ptr, ph, nq, closed, why>>
 
-Next == SOp \/ SRelease \/ \E w \in Writers : ReadPtr(w) \/ DoWrite(w)
+Next == SOp \/ SRelease \/ \E w \in Writers : ReadPtr(w) \/ DoWrite(w) \/ DoCheck(w) \/ DoPush(w)
 
 Spec == Init /\ [][Next]_vars
 
@@ -201,5 +231,5 @@ TypeOK == /\ ph \in {"play", "config"} /\ q \in 0..MaxQ /\ closed \in BOOLEAN
 ----------------------------------------------------------------------------
 (* Schedule export: each complete behaviour once (h makes them distinct). *)
 Emit == (Export /\ Quiescent) =>
-           PrintT(<<"SCHED", ToJson([prog |-> prog, sops |-> SOps, sched |-> h])>>)
+           PrintT(<<"SCHED", ToJson([prog |-> prog, sops |-> SOps, prefill |-> Prefill, sched |-> h])>>)
 =============================================================================
